@@ -6,6 +6,7 @@
 import SV.Gen.Ctx
 import SV.Model.Iban
 import SV.Model.Obj
+import SV.Model.Random
 import SV.Gen.Classes
 import SV.Spec.All
 open SV
@@ -156,6 +157,14 @@ def step (st : DState) (line : String) : DState × String :=
       | some a => (st, showRes showBool (a.ref.validate X.U comps ex))
       | none => (st, "none")
     | _, _, _ => bad
+  | "iban.random_model" :: cc :: useReg :: bankIdx :: xegers :: kvs =>
+    -- xegers: comma-separated hex strings ("-" = none recorded)
+    match parseStr cc, parseBool useReg, kvs.mapM parseKV,
+          (if xegers == "none" then some [] else (xegers.splitOn ",").mapM parseStr) with
+    | some cc, some ur, some kvs, some xs =>
+      let bi : Option Nat := if bankIdx == "-" then none else bankIdx.toNat?
+      (st, showRes showStr (IBAN.random X cc ur kvs ⟨bi, xs⟩))
+    | _, _, _, _ => bad
   | ["obj.cmp", k1, s1, k2, s2] =>
     match parseKind k1, parseStr s1, parseKind k2, parseStr s2 with
     | some (c1, cc1), some s1, some (c2, cc2), some s2 =>
